@@ -31,6 +31,8 @@ type cBody struct {
 	N     int    `json:"n"`
 	Chunk int    `json:"chunk"`
 	EOF   int    `json:"eof"`
+	// CloseMs > 0: the body stream is an io.Closer whose Close takes this long (a file, a pipe from another goroutine)
+	CloseMs int `json:"closems"`
 }
 
 type cStep struct {
@@ -64,6 +66,7 @@ type cStep struct {
 	Ms      int        `json:"ms"`
 	BadHP   bool       `json:"badhpack"`
 	RawFields bool     `json:"rawfields"` // resp: send Fields exactly (no :status added)
+	NoWait    bool     `json:"nowait"`    // call: do not wait for quiescence (the next step waits for something specific)
 	Gate      string   `json:"gate"`      // call: hold the write loop at this hook point until an "ungate" step
 }
 
@@ -141,6 +144,7 @@ type cliRun struct {
 	// scheduler gate: the client's write loop parks in the named blocking hook until released
 	gatePoint   atomic.Value // string
 	gateHit     chan struct{}
+	closeBegan  chan struct{} // a slow body stream's Close has started
 	gateRelease chan struct{}
 	gated       atomic.Bool
 	cutMode     bool
@@ -185,7 +189,7 @@ func init() {
 }
 
 func runCliScenario(sc cScenario) (evs []sEvent) {
-	r := &cliRun{gateHit: make(chan struct{}, 1), gateRelease: make(chan struct{}, 1), sc: sc, reqs: map[int]*cReq{}, sidReq: map[uint32]int{}, recvBody: map[uint32]int{}, sentBody: map[uint32]int{}}
+	r := &cliRun{closeBegan: make(chan struct{}, 8), gateHit: make(chan struct{}, 1), gateRelease: make(chan struct{}, 1), sc: sc, reqs: map[int]*cReq{}, sidReq: map[uint32]int{}, recvBody: map[uint32]int{}, sentBody: map[uint32]int{}}
 	r.unit = sc.Cfg.Unit
 	if r.unit <= 0 {
 		r.unit = 1
@@ -642,6 +646,25 @@ type cliBodyReader struct {
 	eof    int
 }
 
+// cliBodyCloser is a body stream that is also an io.Closer; closing it takes a while.
+type cliBodyCloser struct {
+	cliBodyReader
+	closeMs int
+	note    func(string)
+	began   chan struct{}
+}
+
+func (p *cliBodyCloser) Close() error {
+	p.note("bodyclose-begin")
+	select {
+	case p.began <- struct{}{}:
+	default:
+	}
+	time.Sleep(time.Duration(p.closeMs) * time.Millisecond)
+	p.note("bodyclose-end")
+	return nil
+}
+
 func (p *cliBodyReader) Read(b []byte) (int, error) {
 	if p.off >= p.n {
 		return 0, io.EOF
@@ -686,10 +709,17 @@ func (r *cliRun) stepCall(st *cStep) {
 		switch kind {
 		case "buf":
 			req.SetBodyRaw(patBytes(3, uint32(st.Req), 0, n))
-		case "stream":
-			req.SetBodyStream(&cliBodyReader{req: st.Req, n: n, chunk: st.Body.Chunk, eof: st.Body.EOF}, -1)
-		case "streamcl":
-			req.SetBodyStream(&cliBodyReader{req: st.Req, n: n, chunk: st.Body.Chunk, eof: st.Body.EOF}, n)
+		case "stream", "streamcl":
+			var rd io.Reader = &cliBodyReader{req: st.Req, n: n, chunk: st.Body.Chunk, eof: st.Body.EOF}
+			if st.Body.CloseMs > 0 {
+				rd = &cliBodyCloser{cliBodyReader: cliBodyReader{req: st.Req, n: n, chunk: st.Body.Chunk, eof: st.Body.EOF}, closeMs: st.Body.CloseMs, began: r.closeBegan,
+					note: func(w string) { r.emit(sEvent{"k": "note", "what": w, "sid": st.Req}) }}
+			}
+			if kind == "stream" {
+				req.SetBodyStream(rd, -1)
+			} else {
+				req.SetBodyStream(rd, n)
+			}
 		}
 	}
 	ctx := &http2.Ctx{Request: req, Response: res, Err: make(chan error, 1)}
@@ -738,6 +768,10 @@ func (r *cliRun) stepCall(st *cStep) {
 			ev["status"], ev["fields"], ev["blen"], ev["bodyok"] = res.StatusCode(), fl, len(body), patOK(4, sid, 0, body)
 		}
 		r.emit(ev)
+		// the request is resolved: Request and Response are the caller's again, and a caller with a pool hands them
+		// back at once.  Whatever the connection still does with them from here on is a second owner (C19).
+		fasthttp.ReleaseRequest(req)
+		fasthttp.ReleaseResponse(res)
 		r.resolvedSeen.Add(1)
 	}()
 	if st.Gate != "" {
@@ -748,6 +782,9 @@ func (r *cliRun) stepCall(st *cStep) {
 			r.emit(sEvent{"k": "note", "what": "gate not reached"})
 			r.gatePoint.Store("")
 		}
+	}
+	if st.NoWait {
+		return
 	}
 	r.quiesce()
 }
@@ -1108,6 +1145,14 @@ func (r *cliRun) step(st *cStep) {
 	case "wait":
 		time.Sleep(time.Duration(st.Ms) * time.Millisecond)
 		r.quiesce()
+	case "awaitclose":
+		// until the library has begun to close a slow body stream (at most 2 s); the close is still going on afterwards
+		select {
+		case <-r.closeBegan:
+			time.Sleep(30 * time.Millisecond) // the frames written before the close have reached the peer's reader by now
+		case <-time.After(2 * time.Second):
+			r.emit(sEvent{"k": "note", "what": "bodyclose-not-seen"})
+		}
 	}
 }
 
